@@ -21,20 +21,42 @@ def md5_gate_rule(ctx, rule):
     comps = call_sites(f, lambda p, c: p == OR + "::complete")
     if not comps:
         raise model.AnchorMissing("write_blocks does not call complete()")
+    vd = sl.var_defs()
+
+    def is_md5_verdict(e, depth=0):
+        """the boolean is BlockWriter::check_md5 applied to the announced Content-MD5, true only when no MD5 was announced
+        (`.map(|m| w.check_md5(m)).unwrap_or(true)`, or `match self.content_md5 { Some(m) => w.check_md5(m), None => true }`)"""
+        ex = sl.expand(e)
+        clos = [z[1] for z in walk(ex) if z[0] == "closure"]
+        direct = any(z[0] == "call" and z[1] == BW + "::check_md5" for z in walk(ex))
+        viaclos = any(any(True for _ in call_sites(prog.funcs[c], lambda p, cc: p == BW + "::check_md5")) for c in clos if c in prog.funcs)
+        if (direct or viaclos) and "self.content_md5" in show(ex, 2000):
+            return True
+        if ex[0] in ("var", "tmp") and depth < 2:
+            # multi-definition local: one arm per case of self.content_md5
+            name = ex[1] if ex[0] == "var" else None
+            defs = [(d[1], d[2]) for d in vd.get(name, []) if d[0] == ""] if name else []
+            if len(defs) >= 2:
+                saw_check = False
+                for (de, bb) in defs:
+                    fs_ = flow.facts_at(bb)
+                    if de[0] == "const" and de[2] is True:
+                        if not any(a[0] == "variant" and "content_md5" in show(a[1]) and ((a[2] == "None") == t) for (a, t) in fs_):
+                            return False
+                    elif any(z[0] == "call" and z[1] == BW + "::check_md5" for z in walk(sl.expand(de))):
+                        saw_check = True
+                    else:
+                        return False
+                return saw_check
+        return False
+
     for s in comps:
         fs = flow.facts_at(s.bb)
         done = any(a[0] == "true" and t and any(c[0] == "call" and c[1] == BW + "::is_completed" for c in walk(a[1])) for (a, t) in fs)
         md5 = False
         for (a, t) in fs:
-            if a[0] == "true" and t:
-                # the condition itself (single-definition locals expanded, no flow-insensitive union) must be computed
-                # from BlockWriter::check_md5 applied to self.content_md5
-                ex = sl.expand(a[1])
-                clos = [z[1] for z in walk(ex) if z[0] == "closure"]
-                direct = any(z[0] == "call" and z[1] == BW + "::check_md5" for z in walk(ex))
-                viaclos = any(any(True for _ in call_sites(prog.funcs[c], lambda p, cc: p == BW + "::check_md5")) for c in clos if c in prog.funcs)
-                if (direct or viaclos) and "self.content_md5" in show(ex, 2000):
-                    md5 = True
+            if a[0] == "true" and t and is_md5_verdict(a[1]):
+                md5 = True
         key = "write_blocks -> complete"
         if done and md5:
             rule.ok(key, "behind is_completed() and the MD5 verdict", s.loc)
@@ -47,12 +69,8 @@ def md5_gate_rule(ctx, rule):
     for s in errs:
         fs = flow.facts_at(s.bb)
         for (a, t) in fs:
-            if a[0] == "true" and not t:
-                ex = sl.expand(a[1])
-                clos = [z[1] for z in walk(ex) if z[0] == "closure"]
-                if any(z[0] == "call" and z[1] == BW + "::check_md5" for z in walk(ex)) or \
-                        any(any(True for _ in call_sites(prog.funcs[c], lambda p, cc: p == BW + "::check_md5")) for c in clos if c in prog.funcs):
-                    okerr = True
+            if a[0] == "true" and not t and is_md5_verdict(a[1]):
+                okerr = True
     if okerr:
         rule.ok("write_blocks md5 mismatch -> error", "", errs[0].loc)
     else:
